@@ -52,7 +52,8 @@ func WireEventDoc(t *rapid.T, e *mocrelay.Event, label string) JObj {
 func WireEvent(t *rapid.T, label string, sign bool) *mocrelay.Event {
 	e := &mocrelay.Event{}
 	e.Kind = AnyKind().Draw(t, label+"kind")
-	e.CreatedAt = rapid.OneOf(rapid.Int64Range(0, 1<<40), rapid.Just(int64(0)), rapid.Int64Range(1600000000, 1800000000)).Draw(t, label+"ts")
+	e.CreatedAt = rapid.OneOf(rapid.Int64Range(0, 1<<40), rapid.Just(int64(0)), rapid.Int64Range(1600000000, 1800000000),
+		rapid.SampledFrom([]int64{math.MinInt64, math.MinInt64 + 1, -1, math.MaxInt64, 1<<53 + 1})).Draw(t, label+"ts")
 	n := rapid.IntRange(0, 4).Draw(t, label+"ntags")
 	e.Tags = []mocrelay.Tag{}
 	for i := 0; i < n; i++ {
